@@ -432,3 +432,10 @@ impl Lowerer<'_, '_> {
         }
     }
 }
+
+/// Verification hook (C02): the clone function the lowerer generates for a
+/// type, without lowering a program.
+#[cfg(feature = "verif-hooks")]
+pub fn verif_generate_clone(ctx: &mut LowerCtx<'_>, ty: TyRef) -> Item {
+    Lowerer::generate_clone(ctx, ty)
+}
